@@ -125,7 +125,7 @@ def norm_stmt(s):
     return re.sub(r'\s+', ' ', s).strip()
 
 
-def axioms_audit(prop):
+def axioms_audit(prop, lean_path=None):
     """For every theorem registered for `prop` in theorems.json: it must exist, depend only on the
     three standard axioms, and its pretty-printed statement must equal the committed text.
     Returns (obligations, discharged, details list, raw)"""
@@ -142,8 +142,14 @@ def axioms_audit(prop):
             f.write('#print "@@THM %s"\n' % t['name'])
             f.write('#check @%s\n' % t['name'])
             f.write('#print axioms %s\n' % t['name'])
-    p = subprocess.run(['lake', 'env', 'lean', path], cwd=LEAN, stdout=subprocess.PIPE,
-                       stderr=subprocess.STDOUT, text=True)
+    if lean_path:
+        # link theorems re-checked against kernels freshly generated from a changed source: audit those
+        env = dict(os.environ)
+        env['LEAN_PATH'] = lean_path
+        p = subprocess.run(['lean', path], cwd=LEAN, env=env, stdout=subprocess.PIPE, stderr=subprocess.STDOUT, text=True)
+    else:
+        p = subprocess.run(['lake', 'env', 'lean', path], cwd=LEAN, stdout=subprocess.PIPE,
+                           stderr=subprocess.STDOUT, text=True)
     raw = p.stdout
     seen = {}
     for b in raw.split('@@THM ')[1:]:
@@ -184,6 +190,78 @@ def axioms_audit(prop):
                 discharged += 1
         details.append(d)
     return len(thms), discharged, details, raw
+
+
+# ---------------------------------------------------------------------------------------------
+# generated model (second tie: harness/pygen.py translates the pure kernels of the current source)
+# ---------------------------------------------------------------------------------------------
+
+GEN_COMMITTED = os.path.join(LEAN, 'RxGen', 'Kernels.lean')
+
+
+def _lean_path():
+    p = subprocess.run(['lake', 'env', 'printenv', 'LEAN_PATH'], cwd=LEAN, stdout=subprocess.PIPE, stderr=subprocess.DEVNULL, text=True)
+    return p.stdout.strip()
+
+
+def gen_audit(prop):
+    """Regenerate RxGen/Kernels.lean from the CURRENT source (REPO).  When the text equals the committed copy, the link
+    theorems built by `lake build` are about the current source.  Otherwise the fresh text and the property's link
+    modules are compiled out of tree (nothing under lean/ is touched, so concurrent runs against other source trees do not
+    interfere) and the link theorems must still check against the fresh definitions.
+    Returns (ok, info, lean_path_for_audit or None)."""
+    reg = load_theorems().get(prop, {})
+    mods = reg.get('gen_modules', [])
+    info = {'modules': mods}
+    if not mods:
+        return True, None, None
+    import pygen
+    try:
+        text, errs = pygen.generate(REPO)
+    except Exception as e:       # noqa
+        return False, {'modules': mods, 'error': 'translator failed: %r' % (e,)}, None
+    info['untranslatable'] = errs
+    info['kernels'] = len(pygen.KERNELS) + len(pygen.STAGES) - len(errs)
+    info['generated_sha'] = hashlib.sha256(text.encode()).hexdigest()[:16]
+    try:
+        committed = open(GEN_COMMITTED).read()
+    except OSError:
+        committed = None
+    info['same_as_committed'] = text == committed
+    if text == committed:
+        return True, info, None
+    t = time.time()
+    d = os.path.join(OUT, 'gen', prop)
+    subprocess.run(['rm', '-rf', d])
+    os.makedirs(os.path.join(d, 'RxGen'))
+    src = os.path.join(d, 'RxGen', 'Kernels.lean')
+    open(src, 'w').write(text)
+    env = dict(os.environ)
+    env['LEAN_PATH'] = d + os.pathsep + _lean_path()
+    log = []
+    ok = True
+
+    # lake env overrides LEAN_PATH: call lean directly with the search path we want
+    def compile2(path, modname):
+        out = os.path.join(d, *modname.split('.')) + '.olean'
+        os.makedirs(os.path.dirname(out), exist_ok=True)
+        p = subprocess.run(['lean', '-o', out, path], cwd=LEAN, env=env, stdout=subprocess.PIPE, stderr=subprocess.STDOUT, text=True)
+        errs_ = [l for l in p.stdout.splitlines() if 'error' in l]
+        return p.returncode == 0, errs_[:6]
+    o, e = compile2(src, 'RxGen.Kernels')
+    if not o:
+        ok = False
+        log.append('generated kernels do not compile: %s' % '; '.join(e))
+    else:
+        for m in mods:
+            o, e = compile2(os.path.join(LEAN, *m.split('.')) + '.lean', m)
+            if not o:
+                ok = False
+                log.append('%s no longer checks against the kernels generated from the current source: %s' % (m, '; '.join(e)))
+                break
+    info['recheck_s'] = round(time.time() - t, 1)
+    info['recheck_log'] = log
+    return ok, info, (env['LEAN_PATH'] if ok else None)
 
 
 def run_driver(cmds):
